@@ -96,7 +96,40 @@ JOBLIFE = {
     "monitor": {"module": "MonJobLife.tla", "cfg": "MonJobLife.cfg"},
 }
 
-MODULES = {"jobqueue": JOBQUEUE, "joblife": JOBLIFE}
+# ---------------------------------------------------------------- Cron
+CRON_HCFG = {"NJC": 2, "MaxMissed": 2, "MaxDownMin": 3}
+
+
+def _cron_design(names, timeout):
+    return [{"module": "Cron_MC.tla", "cfg": "Cron_MC_%s.cfg" % n, "timeout": timeout} for n in names]
+
+
+CRON = {
+    "name": "cron",
+    "vh": "cron",
+    "design": {
+        "quick": _cron_design(["core", "recon", "two_small", "catchup"], 600),
+        "thorough": _cron_design(["core", "recon", "two", "catchup_big", "big"], 2400),
+    },
+    "sim": {
+        "quick": [{"module": "Cron_Sim.tla", "cfg": "Cron_Sim_a.cfg", "num": 150, "depth": 45, "harness_cfg": CRON_HCFG, "timeout": 600}],
+        "thorough": [{"module": "Cron_Sim.tla", "cfg": "Cron_Sim_a.cfg", "num": 3000, "depth": 45, "harness_cfg": CRON_HCFG, "timeout": 1200},
+                     {"module": "Cron_Sim.tla", "cfg": "Cron_Sim_b.cfg", "num": 3000, "depth": 60, "harness_cfg": {"NJC": 3, "MaxMissed": 1, "MaxDownMin": 1}, "timeout": 1200}],
+    },
+    "harness": {
+        "quick": [
+            {"name": "random", "args": ["cron", "-mode", "random", "-seed", "{seed}", "-runs", "250", "-steps", "120"]},
+            {"name": "random-std", "args": ["cron", "-mode", "random", "-seed", "{seed}", "-runs", "150", "-steps", "120", "-std"]},
+        ],
+        "thorough": [
+            {"name": "random", "args": ["cron", "-mode", "random", "-seed", "{seed}", "-runs", "4000", "-steps", "140"]},
+            {"name": "random-std", "args": ["cron", "-mode", "random", "-seed", "{seed}", "-runs", "2000", "-steps", "140", "-std"]},
+        ],
+    },
+    "monitor": {"module": "MonCron.tla", "cfg": "MonCron.cfg"},
+}
+
+MODULES = {"jobqueue": JOBQUEUE, "joblife": JOBLIFE, "cron": CRON}
 
 PROPS = {
     "C05": {"modules": ["jobqueue"], "assumptions": [
@@ -117,7 +150,20 @@ JL_ASSUME = [
 for _p in ("C08", "C09", "C10", "C11", "C12", "C13"):
     PROPS[_p] = {"modules": ["joblife"], "assumptions": JL_ASSUME}
 
+CRON_ASSUME = [
+    "TLC, the Json/IOUtils community modules, Go's tz database and the cronexpr library's single-expression Next (the pointwise due-set oracle) are trusted",
+    "a CronWorker pass is one step (the real worker holds its mutex for the whole pass); the clock does not move inside a pass",
+    "knowledge lag (DESIGN 3.7): a JobConfig change counts from the pass that follows its delivery to the controller's cache; times between the change and that pass may be skipped",
+]
+for _p in ("C01", "C02", "C03", "C04"):
+    PROPS[_p] = {"modules": ["cron"], "assumptions": CRON_ASSUME}
+
+_PASS = ["NeverEarly", "OnSchedule", "Stops", "Once", "InOrder", "Cap", "NoGap", "HeapFollows"]
 FORMULAS = {
+    "C01": ["C01_" + x for x in _PASS] + ["C01_HeapIndex"],
+    "C02": ["C02_AtMostOne", "C02_Identity", "C02_KeyRoundTrip", "C02_Requested", "C02_Served"],
+    "C03": ["C03_" + x for x in _PASS],
+    "C04": ["C04_" + x for x in _PASS],
     "C05": ["C05_Admission"],
     "C06": ["C06_Fifo", "C06_EnqueueNeverRefused", "C06_AllowNeverRefused", "C06_RefusedOnlyAtLimit", "C06_NoStuck"],
     "C07": ["C07_NotEarly", "C07_NotEarlyStep", "C07_IndependentStarts", "C07_RefusedOnlyWhenDue"],
@@ -152,6 +198,12 @@ LEVEL_TEXT = {
     "C12": "TLC checks that every controller-issued delete of a live task is justified (kill time reached, pending timeout reached in the pass's view, Job deleting, strategy decided in truth), that force deletion respects its timeout and the forbid switch, and that at the drained end kill and pending-timeout histories have completed; on the design spec exhaustively and on traces of the real controller with every kubelet behaviour.",
     "C13": "TLC checks that a Job leaves the API only when no task named in its status exists, that a TTL delete is never earlier than finish+TTL (job value or configured default) and only for decided Jobs, and that deletion/TTL complete at the drained end; on the JobLife design spec and on traces of the real controller.",
 }
+LEVEL_TEXT.update({
+    "C01": "TLC exhaustively checks on the Cron design spec (schedule heap, worker pass with flush, cap and pop loop, informer handlers, cache lag, restart) that every pass requests exactly the due times of the schedule version it knows: never early, inside the window, strictly after the last request, contiguous, capped at the missed-schedule limit and then resuming from the present, with the heap following the schedule; TLC then evaluates the same closed form on every pass of traces recorded from the real CronWorker + InformerWorker + cronschedule (TLC behaviours replayed with state comparison; seeded random populations of 1-4 JobConfigs with 5/7-field, multi-expression and hashed expressions, time zones, windows, stalls and sub-minute clock offsets), against a pointwise due-set oracle that does not use furiko's iteration logic; heap order and name index are checked on every logged state.",
+    "C02": "TLC checks at-most-one Job per (JobConfig, schedule time) and request-served-at-quiescence on the design spec with duplicate requests, rate-limited retries, a lagging Job cache, rejected creates and crash/restart between request and creation; on traces of the real cron Reconciler (through the real webhooks and a name-unique simulated API) TLC checks the same, plus name = f(JobConfig, time), schedule-time annotation, single controller owner reference, UID label and the work-queue key round trip (one JobConfig name contains dots).",
+    "C03": "TLC checks on the design spec and on traces of the real controller, for create / update / enable / disable / window change / delete / re-create interleaved with ticks, stalls and deliveries, that after a delivered change a pass requests only times of the new schedule later than the change, nothing for a disabled, unscheduled or deleted JobConfig, and that after the pass the heap holds the first due time of the schedule the controller knows - without a restart.",
+    "C04": "TLC checks on the design spec (every restart instant, persisted lastScheduled written by the status controller, lastUpdated stamped by the webhook, windows, downtime shorter and longer than the threshold) and on traces of freshly started real CronWorkers that the heap after a start is the first due time after max(lastScheduled, start - maxDowntime, lastUpdated, notBefore) (start time itself when never scheduled) and that the first pass requests exactly the due times after that reference, capped at the limit, never one at or before lastScheduled.",
+})
 DESIGN_REF = {p: "DESIGN.md section 4 (%s)" % p for p in ["C%02d" % i for i in range(1, 21)]}
 TECHNIQUE = {}
 LEVEL_NOTE = {}
